@@ -203,6 +203,23 @@ def relabelling_with_shared_axis_arrays(seed):
     if not dict_close(lb, labels(b)):
         key = "C02:value-moved-to-other-labels:sort:one-array-for-two-objects"
         fails.append({"key": key, "clause": key, "ops": [{"action": "sort", "axis": axis.tolist()}]})
+    # concatenate: an INTEGER-typed axis (np.arange) joined with fractional coordinates — the operand's labels arrive unchanged
+    for a_dt, b_coords in ((np.int64, [1.25, 1.75, 2.5]), (np.int32, [2.5, 3.25]), (np.uint8, [1.5, 7.25]), (np.float32, [1.1, 2.2])):
+        a = dnp.DNPData(np.arange(4.0).reshape(2, 2), ["x", "k"], [np.arange(2).astype(a_dt), np.arange(2.0)])
+        b = dnp.DNPData(10.0 + np.arange(2.0 * len(b_coords)).reshape(len(b_coords), 2), ["x", "k"], [np.array(b_coords), np.arange(2.0)])
+        want = {**labels(a), **labels(b)}
+        with warnings.catch_warnings():
+            warnings.simplefilter("ignore")
+            try:
+                a.concatenate(b, "x")
+            except Exception:  # noqa: BLE001
+                continue
+        n_eval += 1
+        got = labels(a)
+        if got is None or not dict_close(want, got):
+            key = "C02:value-moved-to-other-labels:concatenate:axis-dtype-%s" % np.dtype(a_dt).name
+            fails.append({"key": key, "clause": key, "ops": [{"receiver_axis_dtype": np.dtype(a_dt).name, "operand_coords": b_coords,
+                                                              "joined_axis": np.asarray(a.coords["x"]).tolist()}]})
     return fails, n_eval
 
 
